@@ -45,6 +45,7 @@ func runC05(c *Ctx) {
 	c.Rule("FILES-COMPLETE", "every input file is converted for the rule handlers whatever the parallelism (jobs cover all chunks, shared mutex, sorted after the barrier)", 1)
 
 	c05KeyInjective(c)
+	c05ReqRespPairing(c)
 
 	t := extractCheckTables(p)
 	for _, e := range t.Errors {
